@@ -107,6 +107,57 @@ def flatten_transcriber(ts):
     return out
 
 
+def flatten_transcriber_full(ts):
+    """like flatten_transcriber, with the separator and the operator of repetitions kept: ('rep', inner, sep, op)"""
+    out = []
+    i = 0
+    while i < len(ts):
+        t = ts[i]
+        if t.get('p') == '$' and i + 1 < len(ts):
+            n = ts[i + 1]
+            if 'i' in n:
+                out.append(('var', n['i']))
+                i += 2
+                continue
+            if 'g' in n and n['g'] == '(':
+                inner = flatten_transcriber_full(n['ts'])
+                j = i + 2
+                sep = None
+                if j < len(ts) and ts[j].get('p') not in ('*', '+', '?'):
+                    sep = tok(ts[j])
+                    j += 1
+                op = ts[j].get('p') if j < len(ts) else None
+                out.append(('rep', tuple(inner), sep, op))
+                i = j + 1
+                continue
+        if 'g' in t:
+            out.append(('g', t['g'], tuple(flatten_transcriber_full(t['ts']))))
+        elif 'i' in t:
+            out.append(('lit', t['i']))
+        elif 'p' in t:
+            out.append(('lit', t['p']))
+        elif 'lit' in t:
+            out.append(('lit', t['lit']))
+        i += 1
+    return out
+
+
+def matcher_as_transcriber(ms):
+    """the token sequence that re-emits exactly what a matcher matched: `$x:tt` -> `$x`, repetitions with the same separator and operator"""
+    out = []
+    for e in ms:
+        if e[0] in ('tt', 'frag'):
+            out.append(('var', e[1]))
+        elif e[0] == 'rep':
+            out.append(('rep', tuple(matcher_as_transcriber(e[1])), e[2], e[3]))
+        elif e[0] == 'g':
+            out.append(('g', e[1], tuple(matcher_as_transcriber(e[2]))))
+        else:
+            out.append(e)
+    return out
+
+
+
 def is_rest(e):
     return e[0] == 'rep' and len(e[1]) == 1 and e[1][0][0] == 'tt' and e[3] == '*'
 
@@ -327,6 +378,46 @@ def run_rules(rep, repo):
                           f'the rule at line {r["line"]} builds the insertion path as `{render_t(sl)[:90]}`: not header path followed by key segments, so under a '
                           f'`[header]` the value lands at a different place than the parser puts it', f'{file}:{r["line"]}')
 
+    # ---- R8: a rule that re-dispatches `key = <rewritten value>` re-emits the key exactly as matched
+    R8 = rep.rule('C19/R8', 'key conservation: every rule that matches `key = ..` and continues the muncher with a rewritten value re-emits the key tokens '
+                  'exactly as it matched them (same fragments, same `-` / `.` separators at the same nesting), so dotted and hyphenated keys keep their shape', floor=20)
+    raw = {id(r): (mts, tts) for r, (mts, tts, line) in zip(parsed, rules)}
+    for idx, (r, (mts, tts, line)) in enumerate(zip(parsed, rules)):
+        m = r['m']
+        if ('lit', '=') not in m:
+            continue
+        eq = m.index(('lit', '='))
+        # the key part: from after `$root:ident` (and the optional `[$($path)*]` context) up to `=`
+        start = 3
+        while start < eq and m[start][0] == 'g':
+            start += 1
+        key_m = m[start:eq]
+        if not key_m:
+            continue
+        full_t = flatten_transcriber_full(tts)
+        conts = []
+
+        def collect(ts):
+            ts = list(ts)
+            for i, e in enumerate(ts):
+                if e == ('lit', 'toml_internal') and i + 2 < len(ts) and ts[i + 1] == ('lit', '!') and ts[i + 2][0] == 'g':
+                    conts.append(list(ts[i + 2][2]))
+                if e[0] == 'g':
+                    collect(e[2])
+        collect(full_t)
+        want = matcher_as_transcriber(key_m)
+        for c in conts:
+            if ('lit', '=') not in c:
+                continue
+            ceq = c.index(('lit', '='))
+            cstart = 3
+            while cstart < ceq and c[cstart][0] == 'g':
+                cstart += 1
+            got = c[cstart:ceq]
+            rep.check(R8, f'@{r["state"]}#{idx}|key', got == want, 'key re-emitted as matched',
+                      f'the rule at line {r["line"]} matches the key as `{render_t([(x[0], x[1]) if x[0] != "rep" else x for x in want])[:70]}` but re-emits it with a different '
+                      f'separator structure: a dotted or hyphenated key changes its shape (`a.b = -1` becomes the key `a-b`)', f'{file}:{r["line"]}')
+
 
 def flatten_all(ts):
     for e in ts:
@@ -426,6 +517,14 @@ def r4_helpers(rep, facts):
               '*traverse(root, path) = value', 'insert_toml no longer assigns through traverse', facts.loc(b))
 
 
+def r9_datetime_total(rep, facts):
+    if 'toml_datetime' not in facts.crates:
+        return
+    from .rules_c12 import r4_truncation
+    r4_truncation(rep, facts)
+    rep.relabel('C12/R4', 'C19/R9', 'the macro hands the token spelling of a date-time to Datetime::from_str(..).unwrap(): ')
+
+
 def run(tier):
     seed = int(os.environ.get('VERIF_SEED', '0') or 0)
     rep = Report(PROP, tier, seed)
@@ -435,6 +534,7 @@ def run(tier):
         rep.configs.append('default')
         rep.bodies_analysed = facts.n_bodies()
         r4_helpers(rep, facts)
+        r9_datetime_total(rep, facts)
     except AnalysisIncomplete as e:
         rep.incomplete('C19/analysis', 'rules', str(e))
     except Exception:
